@@ -126,6 +126,21 @@ def make_cfgs(tier):
             for pat in ("ramp", "rampdown"):
                 i += 1
                 cfgs.append({"id": i, "algo": algo, "kind": kind, "K": K, "D": 1, "box": rnd.choice([[[0.0, 1.0]], [[0.1, 0.7]], [[-1.5, 2.25]]]), "n": 150, "T": 150, "prm": {}, "pattern": pat, "seed": rnd.randrange(1 << 30), "timeout": 30})
+    # ... the same on far-shifted / negative boxes with random K-ary cuts, where cells only a few ulps wide (and then of width
+    # zero) are reached within the budget: redraw loops, stick-breaking cuts that round onto an end point
+    for algo, prm in (("DOO", {}), ("SOO", {"h_max": 1000}), ("T_HOO", {"nu": 1, "rho": 0.95}), ("HCT", {"nu": 1, "rho": 0.9, "c": 0.02})):
+        for (kind, K) in (("rkary", 3), ("rkary", 5), ("rbin", 2), ("kary", 3)):
+            for box, pat in (([[1e6, 1e6 + 3.0]], "rampdown"), (rnd.choice([[[1e6, 1e6 + 3.0]], [[-7.0, -3.0]], [[4096.0, 4097.0]], [[1e9, 1e9 + 1.0]]]), "ramp")):
+                i += 1
+                cfgs.append({"id": i, "algo": algo, "kind": kind, "K": K, "D": 1, "box": box, "n": 260, "T": 260, "prm": dict(prm), "pattern": pat, "seed": rnd.randrange(1 << 30), "timeout": 30})
+    # Zooming refines at almost every round when nu is large (or rho close to 1): chains of 50+ refinements, zero-width cells
+    for (kind, K) in (("bin", 2), ("rbin", 2), ("rkary", 3), ("kary", 3), ("dbin", 2)):
+        for (nu, rho) in ((2000.0, 0.5), (100.0, 0.9), (10.0, 0.99)):
+            i += 1
+            D = 2 if kind == "dbin" and nu == 100.0 else 1
+            box = rnd.choice([[[0.0, 1.0]], [[1e6, 1e6 + 3.0]], [[-7.0, -3.0]]])
+            cfgs.append({"id": i, "algo": "Zooming", "kind": kind, "K": K, "D": D, "box": box * D if D > 1 else box, "n": 120, "T": 120, "prm": {"nu": nu, "rho": rho},
+                         "pattern": rnd.choice(["const", "neg", "zero"]), "seed": rnd.randrange(1 << 30), "timeout": 30})
     # the ends of the float range: tiny, subnormal, huge, and a box whose bounds sum overflows (finding F15)
     for j, box in enumerate(([[1e-300, 2e-300]], [[5e-324, 1e-323]], [[-1e150, 1e150]], [[1.0, 1.0000000000000002]], [[1e307, 1.7e308]])):
         for algo in ("T_HOO", "SOO", "Zooming"):
